@@ -283,9 +283,8 @@ fn to_procedure_call(
 fn parse_assignment_known_target(
     ctx: &mut ParsingContext<'_>,
     target: WithTokenSpan<Target>,
+    postponed: bool,
 ) -> ParseResult<ConcurrentStatement> {
-    // @TODO postponed
-    let postponed = false;
     // @TODO guarded
     let guarded = false;
     let delay_mechanism = parse_delay_mechanism(ctx)?;
@@ -309,7 +308,7 @@ fn parse_assignment_or_procedure_call(
 ) -> ParseResult<ConcurrentStatement> {
     expect_token!(ctx.stream, token,
     LTE => {
-        parse_assignment_known_target(ctx, target)
+        parse_assignment_known_target(ctx, target, false)
     },
     SemiColon => {
         Ok(ConcurrentStatement::ProcedureCall(to_procedure_call(ctx, target, false)?))
@@ -656,10 +655,19 @@ pub fn parse_concurrent_statement(
                     Process => ConcurrentStatement::Process(parse_process_statement(ctx, label, Some(tok))?),
                     Assert => ConcurrentStatement::Assert(parse_concurrent_assert_statement(ctx, true)?),
                     With => ConcurrentStatement::Assignment(parse_selected_signal_assignment(ctx, true)?),
+                    LeftPar => {
+                        let target = parse_aggregate(ctx)?.map_into(Target::Aggregate);
+                        ctx.stream.expect_kind(LTE)?;
+                        parse_assignment_known_target(ctx, target, true)?
+                    }
                     _ => {
                         let target = parse_name(ctx)?.map_into(Target::Name);
-                        expect_semicolon(ctx);
-                        ConcurrentStatement::ProcedureCall(to_procedure_call(ctx, target, true)?)
+                        if ctx.stream.skip_if_kind(LTE) {
+                            parse_assignment_known_target(ctx, target, true)?
+                        } else {
+                            expect_semicolon(ctx);
+                            ConcurrentStatement::ProcedureCall(to_procedure_call(ctx, target, true)?)
+                        }
                     }
                 }
             },
@@ -681,7 +689,7 @@ pub fn parse_concurrent_statement(
             LtLt => {
                 let name = parse_name(ctx)?;
                 ctx.stream.expect_kind(LTE)?;
-                parse_assignment_known_target(ctx, name.map_into(Target::Name))?
+                parse_assignment_known_target(ctx, name.map_into(Target::Name), false)?
             },
             LeftPar => {
                 let target = parse_aggregate(ctx)?.map_into(Target::Aggregate);
